@@ -91,6 +91,10 @@ class Ctx:
             rec = runner.run_forked(plan, real_timeout * 8, cpu_timeout=real_timeout)
         else:
             rec = runner.run_forked(plan, real_timeout)
+        if rec.get('outcome') == 'HARNESS-TIMEOUT' and not rec.get('cpu_exceeded'):
+            # the wall-clock allowance depends on how loaded the machine is: one more try with five times as much before the case
+            # is reported as a harness error (the run itself is deterministic, so nothing else changes)
+            rec = runner.run_forked(plan, real_timeout * (40 if hang_is_outcome else 5), cpu_timeout=real_timeout if hang_is_outcome else None)
         if hang_is_outcome and rec.get('cpu_exceeded'):
             # the tool kept the processor for the whole allowance without making a single simulated call: a campaign
             # that is about termination judges this as an outcome of the run instead of discarding the case
